@@ -276,6 +276,73 @@ def flag_merge(ctx):
                        'tool.flags(gopts, mode=global)')
 
 
+def option_identity(ctx):
+    R = 'OPTION-IDENTITY'
+    ctx.rule(R, 'option_list de-duplicates semantic options only when they '
+             'are equal in every field (Option.matches is full equality and '
+             'no option class weakens it), so a later define/std/... with a '
+             'different value is kept; environment flag variables are split '
+             'with sh rules (shell.split)')
+    repo = ctx.repo
+    base = repo.cls(OPTS + ':Option')
+    mt = base.methods.get('matches')
+    ok = mt is not None and unparse(Q.returns(mt)[0].value) == 'self == rhs'
+    ctx.ob(R, 'Option.matches|full-equality', ok, mt or base.node,
+           'Option.matches is not `self == rhs`')
+    eq = base.methods.get('__eq__')
+    ok = eq is not None and '__slots__' in unparse(eq) and \
+        'type(self) is type(rhs)' in unparse(eq)
+    ctx.ob(R, 'Option.__eq__|all-slots', ok, eq or base.node,
+           'Option equality does not compare every field')
+    for ci in sorted(base.subclasses(), key=lambda c: c.fq):
+        for nm in ('matches', '__eq__'):
+            if nm in ci.methods:
+                ctx.ob(R, '{}|overrides-{}'.format(ci.fq, nm), False,
+                       ci.methods[nm],
+                       'option class {} overrides {}: options that differ in '
+                       'a field may be treated as duplicates and dropped'
+                       .format(ci.name, nm))
+    # include directories: "default" search dirs are computed with CPATH
+    # neutralised, so a requested directory that merely is on CPATH still
+    # gets its -I flag (and its position in the search order)
+    idf = repo.method(CC_COMPILER, '_include_dir')
+    vals = [unparse(v) for v in Q.local_assignments(idf.node, 'default_dirs')
+            if v is not None]
+    ctx.ob(R, 'CcBaseCompiler._include_dir|default-dirs-without-CPATH',
+           vals == ['self._search_dirs(None)'], idf.node,
+           'default include dirs are computed as {}: with the ambient CPATH '
+           'included, an include_dir option for a directory on CPATH emits '
+           'no -I flag'.format(vals))
+    sd = repo.method(CC_COMPILER, '_search_dirs')
+    ok = "{'CPATH': cpath or ''}" in unparse(sd.node) and \
+        'cpath is not default_sentinel' in unparse(sd.node)
+    ctx.ob(R, 'CcBaseCompiler._search_dirs|cpath-override', ok, sd.node, '')
+    # environment flags
+    cb = repo.method('bfg9000.tools.cc:CcBuilder', '__init__')
+    seen = set()
+    for c in Q.calls(cb.node):
+        if unparse(c.func) != 'env.getvar' or not c.args:
+            continue
+        par = getattr(c, '_parent', None)
+        # `.split()` called on the raw string: whitespace split, no quoting
+        if isinstance(par, ast.Attribute) and par.attr == 'split' and \
+                par.value is c:
+            ctx.ob(R, 'CcBuilder.__init__|str.split|' + unparse(c), False, c,
+                   'an environment variable is split on whitespace with '
+                   'str.split() instead of sh rules (shell.split): a quoted '
+                   'word containing a space is torn apart')
+            continue
+        if isinstance(par, ast.Call) and unparse(par.func) == \
+                'shell.split' and par.args and par.args[0] is c:
+            seen.add(unparse(c.args[0]))
+    for want in ("'CPPFLAGS'", "langinfo.var('flags')",
+                 "ldinfo.var('flags')", "ldinfo.var('libs')"):
+        ctx.ob(R, 'CcBuilder.__init__|shell.split(env.getvar({}))'.format(
+            want), want in seen, cb.node,
+            'the flags variable {} is not read through '
+            'shell.split(env.getvar(...)) (sh word splitting)'.format(want))
+
+
 def check(ctx):
     ctx.not_decided += [
         'acceptance of each flag by the compiler actually detected on the '
@@ -284,3 +351,4 @@ def check(ctx):
     option_exhaustive(ctx)
     flag_grammar(ctx)
     flag_merge(ctx)
+    option_identity(ctx)
